@@ -364,7 +364,7 @@ class Contract:
                  unwind=None, invariants=None, modifies=None, assumes=(), level='top',
                  bound_args=None, kind='function', spec_globals=None, note='', recipes=None,
                  max_paths=5000, result_spec=None, call_raises=None, name=None,
-                 body_slice=None, watch_attrs=(), event_clauses=None, havoc=None, symlist_models=None, eager_ensures=False):
+                 body_slice=None, watch_attrs=(), event_clauses=None, havoc=None, symlist_models=None, eager_ensures=False, lemmas=()):
         self.module = module
         self.qualname = qualname
         self.name = name or qualname     # identity of the contract (several contracts may describe one function)
@@ -388,6 +388,9 @@ class Contract:
             self.raises.append(Clause(k, when, lvl, exc=exc if isinstance(exc, tuple) else (exc,), when=when))
         self.unwind = unwind or {}
         self.invariants = invariants or {}
+        # proved lemmas used by this proof: [(lemma contract name, {lemma parameter: expression over this contract's
+        # parameters})]; each contributes the fact  (lemma pre-conditions) -> (lemma post-conditions)
+        self.lemmas = list(lemmas)
         self.eager_ensures = eager_ensures   # at call sites the post-condition also feeds the feasibility solver
         self.symlist_models = symlist_models or {}     # spec function name -> fold model over lists of symbolic length
         self.modifies = modifies           # None: frame not checked; list of param names that may change
